@@ -137,6 +137,26 @@ def hmf_solver_excess(w, fixed, solved, which, eps=None):
     return float(np.sum(K * K * EPS * EPS * (lmax / lmin) ** 2 * lmax * np.sum(x * x, axis=1)))
 
 
+def hmf_ref_astep(s, w, g):
+    """Reference coefficient update: per spectrum, dense SVD least squares of sqrt(w_i) (g^T a_i - s_i) (minimum norm if rank deficient)."""
+    N, K = s.shape[0], g.shape[0]
+    a = np.zeros((N, K))
+    for i in range(N):
+        q = np.sqrt(w[i])
+        a[i] = np.linalg.lstsq(q[:, None] * g.T, q * s[i], rcond=None)[0]
+    return a
+
+
+def hmf_ref_gstep(s, w, a):
+    """Reference component update without smoothing (the pixels decouple): per pixel, dense SVD least squares."""
+    K, M = a.shape[1], s.shape[1]
+    g = np.zeros((K, M))
+    for j in range(M):
+        q = np.sqrt(w[:, j])
+        g[:, j] = np.linalg.lstsq(q[:, None] * a, q * s[:, j], rcond=None)[0]
+    return g
+
+
 def hmf_astep_residual(s, w, g, a):
     """Worst component-wise relative residual of the N normal equations G_i a_i = F_i.
 
